@@ -440,6 +440,18 @@ pub fn run(ctx: &Ctx) -> ! {
         check_case(ctx, &uni, case, &counters, &samples);
         distinct.lock().unwrap().insert(crate::common::fnv(format!("{}|{}", case.cq.text, engine::args_json(case.args)).as_bytes()));
     };
+    // (0) one-edge structures + two tag deviations: two tag-dependent filters on one property (every pair of
+    //     operator classes, either textual order, same or different tags), which the dynamic hints must
+    //     combine / prioritise correctly
+    let sm = &uni.world.schema;
+    let cfg_e1 = qgen::GenCfg { allow: Some(vec!["E"]), e_names: Some(vec!["next", "one"]), e_contents: vec![0], recurse_depths: vec![1, 2], naming_devs: false, ..Default::default() };
+    let one_edge: Vec<qast::Query> = qgen::enumerate(sm, &[qgen::skeleton()], 1, &cfg_e1).into_iter().skip(1).flatten().collect();
+    let mut cfg0 = CorpusCfg::new(2);
+    cfg0.seeds = one_edge;
+    cfg0.gen = qgen::GenCfg { allow: Some(vec!["Pt"]), wide_filters: true, naming_devs: false, ..Default::default() };
+    cfg0.max_arg_maps = 1;
+    cfg0.only_datasets = Some(vec!["diamond", "fan3", "chains", "twocycle"]);
+    let s0 = corpus::drive(ctx, &uni, &cfg0, &|_| {}, &per_case, &|_, _| {});
     // (1) the general space with the widened filter menu
     let mut cfg = CorpusCfg::new(ctx.tier.pick(2, 2));
     cfg.gen.wide_filters = true;
@@ -453,7 +465,6 @@ pub fn run(ctx: &Ctx) -> ! {
     }));
     let s1 = corpus::drive(ctx, &uni, &cfg, &|_| {}, &per_case, &|_, _| {});
     // (2) two-edge structures + one filter / tag deviation (tags across optional / fold / recurse scopes)
-    let sm = &uni.world.schema;
     let cfg_e = qgen::GenCfg { allow: Some(vec!["E"]), e_names: Some(vec!["next", "one"]), e_contents: vec![0, 1], recurse_depths: vec![1, 2], naming_devs: false, ..Default::default() };
     let structures: Vec<qast::Query> = qgen::enumerate(sm, &[qgen::skeleton()], 2, &cfg_e).into_iter().skip(1).flatten().collect();
     let mut cfg2 = CorpusCfg::new(ctx.tier.pick(1, 2));
@@ -468,13 +479,14 @@ pub fn run(ctx: &Ctx) -> ! {
     let mut c = cov();
     c.insert("evaluations".into(), json!(counters.runs.load(Ordering::Relaxed)));
     c.insert("distinct_nontrivial".into(), json!(counters.cases_pruned.load(Ordering::Relaxed)));
-    c.insert("rule".into(), json!("every (query, dataset, arguments) case of two enumerated spaces (k<=2 with the widened filter menu; two-edge structures + filter/tag deviations) is executed with a hint-ignoring adapter and with a pruning adapter acting on all hints; on disagreement each single (resolution point, hint kind) is tried to localise it. evaluations = pruned executions; non-trivial = cases in which the pruner actually discarded at least one vertex and results still had to match"));
+    c.insert("rule".into(), json!("every (query, dataset, arguments) case of three enumerated spaces (one-edge structures + two tag deviations; k<=2 with the widened filter menu; two-edge structures + filter/tag deviations) is executed with a hint-ignoring adapter and with a pruning adapter acting on all hints; on disagreement each single (resolution point, hint kind) is tried to localise it. evaluations = pruned executions; non-trivial = cases in which the pruner actually discarded at least one vertex and results still had to match"));
     c.insert("cases_with_active_hints".into(), json!(counters.cases_with_hints.load(Ordering::Relaxed)));
     c.insert("distinct_query_argument_pairs".into(), json!(distinct.lock().unwrap().len()));
+    c.insert("corpus_two_tag_filters".into(), s0.to_json());
     c.insert("corpus_general".into(), s1.to_json());
     c.insert("corpus_structures".into(), s2.as_ref().map(|s| s.to_json()).unwrap_or(json!("skipped: time budget used by the first corpus")));
     c.insert("samples".into(), json!(samples.lock().unwrap().items));
-    let capped = s1.capped || s2.as_ref().map(|s| s.capped).unwrap_or(true);
+    let capped = s0.capped || s1.capped || s2.as_ref().map(|s| s.capped).unwrap_or(true);
     c.insert("exhaustive".into(), json!(!capped));
     let _ = (Tier::Quick, BTreeMap::<u8, u8>::new());
     ctx.finish(
